@@ -16,6 +16,7 @@ CHECKS = {
     "C08": dict(engine="S", text="regrid_spec / interp / rotate executed on symbolic spectra with the xarray interpolation replaced by a differential-tested 1-D linear contract; z3 proves the output equals the periodic-linear reference bin by bin (exact on nodes, both seam neighbours used), non-negativity, zero above fmax, Hs conservation under maintain_m0, whole-bin rotation == circular shift", ref="6/C08"),
     "C09": dict(engine="S", text="PTM4 with symbolic wind speed (the boundary celerity = wind component is a satisfying assignment, not a sampled accident), bbox with all box limits symbolic, split/PTM5 on listed on- and off-node cutoffs: z3 proves every bin is assigned by the stated rule, partitions are disjoint and sum to the input, overlapping boxes raise", ref="6/C09"),
     "C10": dict(engine="S", text="relational symbolic runs of the real statistics on S and kS (k symbolic for polynomial statistics), on S and S with relabelled directions, plus Cauchy-Schwarz bounds proven as generic lemmas and instantiated on the implementation's outputs, and scale_by_hs with symbolic coefficients and range limits", ref="6/C10"),
+    "C14": dict(engine="S", text="Dataset.spec.sel (nearest, idw, bbox) executed through the public API with symbolic station and query longitudes/latitudes and symbolic tolerance, both longitude conventions independently as preconditions: z3 proves the selected stations are those of the circular-distance / box oracle, weights are 1/d, failures happen exactly beyond the tolerance, longitudes come back in the query's convention", ref="6/C14"),
     "C16": dict(engine="S", text="the real smooth_spec (xarray rolling mean) is executed on symbolic spectra for every window/grid in the bound; z3 proves each output bin equals the circular window mean (or lies within the neighbourhood's min/max at the edges), identity for window 1, commutation with circular shifts; even windows must raise", ref="6/C16"),
 }
 
